@@ -707,6 +707,8 @@ def t_small(E):
         Bn['__getattr_ext__'] = attr
         ns = Bn[('import', 'asyncio')]
         ns.attrs['wait_for'] = VStub('asyncio.wait_for', lambda E_, a, k: aio.mk_awaitable('wait_for', inner=a[0], timeout=a[1]))
+        ns.attrs['ensure_future'] = VStub('asyncio.ensure_future', lambda E_, a, k: Obj('ATask', dict(
+            coro=a[0], loop=k.get('loop', o.fields['loop']))))
 
         # ---- _put: the flag is cleared BEFORE the put is handed to the loop (barrier), thread-safely
         f = method(E, '_put')
@@ -927,6 +929,11 @@ def t_wait(E):
                     gdone['v'] = E.fresh('getting_done', B)
                     return (NONE,)
             if isinstance(v, Obj) and v.cls == 'Awaitable' and v.fields['kind'] == 'join':
+                # q.join() awaited inline looks at the counter NOW: the put that _put() scheduled for an argument
+                # submitted just before wait() has not run yet (it is a loop callback), the counter is still 0 and
+                # join() returns without yielding.  As a task it starts one callback later, after that put (FIFO).
+                E.oblige(Qn + '/barrier.join_runs_as_a_task_so_it_starts_after_the_pending_put', z3.BoolVal(False),
+                         props={'C07'}, detail='`await self.q.join()` instead of `await loop.create_task(self.q.join())`')
                 log.append(('join',))
                 suspend(E, 'join', node)
                 gdone['v'] = E.fresh('getting_done', B)
